@@ -369,6 +369,18 @@ def c_frames_to_endpoint(ft2: int, s2: int, fa: bool, fb: bool, fc: bool, n: int
             got = [f for _, f in t.sent[n1:] if f.stream_id == peer_live]
             if len(got) != 1 or not isinstance(got[0], PayloadFrame) or bytes(got[0].data) != b'el':
                 devs.append('C12:live-peer-stream-no-longer-served-after-hostile-input')
+        # ... and a request the application starts now still goes out and can be answered
+        n2 = len(t.sent)
+        later = ep.request_response(Payload(b'later'))
+        loop.run_ready()
+        reqs = [f for _, f in t.sent[n2:] if isinstance(f, RequestResponseFrame)]
+        if len(reqs) != 1:
+            devs.append('C12:own-request-after-hostile-input-not-sent')
+        else:
+            t.feed_wire(to_payload_frame(reqs[0].stream_id, Payload(b'later-answer'), complete=True))
+            loop.run_ready()
+            if not later.done() or later.cancelled() or later.exception() is not None or bytes(later.result().data) != b'later-answer':
+                devs.append('C12:own-request-after-hostile-input-not-answerable')
         stats.note(True, {'role': ROLE, 'ctx': ctx, 'ft2': ft2, 'sid2': sid2, 'second': SECOND})
         t.eof()
         loop.run_ready()
